@@ -340,6 +340,71 @@ func extractStartup(t *T) (string, error) {
 			v = "false"
 		}
 	}
+	// store/disk.go Set opens the cache file with O_CREATE and O_TRUNC for writing: whatever was there is gone before the
+	// first byte of the new content is written
+	if df, err := t.ParseFile("store/disk.go"); err == nil {
+		tv := ""
+		if fd := FuncDecl(df, "onDiskStore", "Set"); fd != nil {
+			ast.Inspect(fd.Body, func(n ast.Node) bool {
+				c, ok := n.(*ast.CallExpr)
+				if !ok || len(c.Args) != 3 {
+					return true
+				}
+				sel, ok := c.Fun.(*ast.SelectorExpr)
+				if !ok || sel.Sel.Name != "OpenFile" {
+					return true
+				}
+				flags := strings.Join(strings.Fields(t.Src("store/disk.go", c.Args[1])), "")
+				has := func(f string) bool {
+					for _, x := range strings.Split(flags, "|") {
+						if x == "os."+f {
+							return true
+						}
+					}
+					return false
+				}
+				tv = "false"
+				if has("O_TRUNC") && has("O_CREATE") && (has("O_WRONLY") || has("O_RDWR")) && !has("O_APPEND") {
+					tv = "true"
+				}
+				return false
+			})
+		}
+		def("store_set_truncates", tv, "store/disk.go Set: os.OpenFile(path, os.O_RDWR|os.O_CREATE|os.O_TRUNC, ...) (write access, create, truncate, no append)")
+		// store/disk.go Get: the reader whose end-of-data flag is tested after decoding (`if X.eof`) is the very reader the
+		// decompressor consumes (`lz4.NewReader(X)`): a file that ends at a block boundary is an error, not a short message
+		gv := ""
+		if fd := FuncDecl(df, "onDiskStore", "Get"); fd != nil {
+			tested := map[string]bool{}
+			fed := []string{}
+			ast.Inspect(fd.Body, func(n ast.Node) bool {
+				switch x := n.(type) {
+				case *ast.IfStmt:
+					if sel, ok := x.Cond.(*ast.SelectorExpr); ok && sel.Sel.Name == "eof" {
+						if id, ok := sel.X.(*ast.Ident); ok {
+							tested[id.Name] = true
+						}
+					}
+				case *ast.CallExpr:
+					if sel, ok := x.Fun.(*ast.SelectorExpr); ok && sel.Sel.Name == "NewReader" && isIdentNamed(sel.X, "lz4") && len(x.Args) == 1 {
+						if id, ok := x.Args[0].(*ast.Ident); ok {
+							fed = append(fed, id.Name)
+						} else {
+							fed = append(fed, "?")
+						}
+					}
+				}
+				return true
+			})
+			gv = "false"
+			if len(fed) == 1 && len(tested) == 1 && tested[fed[0]] {
+				gv = "true"
+			}
+		}
+		def("store_get_decodes_from_eof_tracker", gv, "store/disk.go Get: decompressor := lz4.NewReader(source) ... if source.eof { error }: the end-of-data test watches the reader that is decoded")
+	} else {
+		return "", err
+	}
 	def("chunk_loops_bind_their_chunk", v, fmt.Sprintf("%d chunk loops in write_ops.go / read_ops.go; loops that mention the whole slice or ignore the chunk: %v", loops, bad))
 	return sb.String(), nil
 }
